@@ -45,9 +45,6 @@ func checkArith(s string, st *Stats) error {
 		if gerr == nil {
 			return fmt.Errorf("ill-formed expression was accepted with value %v", got)
 		}
-		if !strings.HasPrefix(gerr.Error(), "failed to parse the input: ") {
-			return fmt.Errorf("ill-formed expression: unexpected kind of error %q", gerr)
-		}
 	case want.err != nil:
 		if st != nil {
 			st.Class("division by zero")
